@@ -367,8 +367,19 @@ class Tracer:
         if self.policy:
             self.policy.on_stacks(stacks, generators, sim, env)
         st = [[vid, [project_instruction(i) for i in stacks[vid]]] for vid in sorted(stacks.keys())]
+        # what each vehicle's own driver wants in this step (its generate_instruction is a pure function of the state the
+        # generators saw): "the vehicle's own driver has the final word"
+        drv = []
+        for v in sim.get_vehicles():
+            try:
+                d_i = v.driver_state.generate_instruction(sim, env, None)
+            except Exception:
+                d_i = None
+            if d_i is not None:
+                drv.append(project_instruction(d_i))
         self.write({
             "ev": "stacks",
+            "drv": drv,
             "gens": list(generators),
             "stacks": st,
             "final": [project_instruction(i) for i in final],
